@@ -10,6 +10,7 @@ import (
 	"os/exec"
 	"sort"
 	"strings"
+	"sync"
 	"unicode"
 	"unicode/utf8"
 
@@ -249,32 +250,65 @@ func UniTable(texts ...string) string {
 
 // ---- the model process
 
-// RunModel feeds the case lines to the extracted model and returns one output
-// line per case.
+// RunModel feeds the case lines to the extracted model (several driver
+// processes in parallel) and returns one output line per case.
 func RunModel(driver string, lines []string) ([]string, error) {
-	var in bytes.Buffer
 	for _, l := range lines {
 		if strings.ContainsAny(l, "\n\r") {
 			return nil, fmt.Errorf("case line contains a newline")
 		}
-		in.WriteString(l)
-		in.WriteByte('\n')
 	}
-	cmd := exec.Command(driver)
-	cmd.Stdin = &in
-	cmd.Stderr = os.Stderr
-	outp, err := cmd.Output()
-	if err != nil {
-		return nil, fmt.Errorf("model driver: %w", err)
+	nproc := 12
+	if len(lines) < 256 {
+		nproc = 1
 	}
-	var res []string
-	sc := bufio.NewScanner(bytes.NewReader(outp))
-	sc.Buffer(make([]byte, 1<<20), 1<<28)
-	for sc.Scan() {
-		res = append(res, sc.Text())
+	per := (len(lines) + nproc - 1) / nproc
+	res := make([]string, len(lines))
+	errs := make([]error, nproc)
+	var wg sync.WaitGroup
+	for w := 0; w < nproc; w++ {
+		lo, hi := w*per, (w+1)*per
+		if hi > len(lines) {
+			hi = len(lines)
+		}
+		if lo >= hi {
+			break
+		}
+		wg.Add(1)
+		go func(w, lo, hi int) {
+			defer wg.Done()
+			var in bytes.Buffer
+			for _, l := range lines[lo:hi] {
+				in.WriteString(l)
+				in.WriteByte('\n')
+			}
+			cmd := exec.Command(driver)
+			cmd.Stdin = &in
+			cmd.Stderr = os.Stderr
+			outp, err := cmd.Output()
+			if err != nil {
+				errs[w] = fmt.Errorf("model driver: %w", err)
+				return
+			}
+			sc := bufio.NewScanner(bytes.NewReader(outp))
+			sc.Buffer(make([]byte, 1<<20), 1<<28)
+			n := lo
+			for sc.Scan() {
+				if n < hi {
+					res[n] = sc.Text()
+				}
+				n++
+			}
+			if n != hi {
+				errs[w] = fmt.Errorf("model driver returned %d lines for %d cases", n-lo, hi-lo)
+			}
+		}(w, lo, hi)
 	}
-	if len(res) != len(lines) {
-		return nil, fmt.Errorf("model driver returned %d lines for %d cases", len(res), len(lines))
+	wg.Wait()
+	for _, e := range errs {
+		if e != nil {
+			return nil, e
+		}
 	}
 	return res, nil
 }
